@@ -23,6 +23,10 @@
  *           F<d>    parsec_dtd_data_flush of tile d
  *           F*      parsec_dtd_data_flush_all
  *           !       parsec_taskpool_wait, then every rank records the content of the tiles it owns
+ *           ~       timing only ("late flush"): the inserting thread of every rank polls (bounded, 400 ms) until
+ *                   the bodies of all tasks inserted so far that run on its rank have returned, then sleeps 2 ms:
+ *                   the next flush finds the tile's last user already completed (last_user.alive ==
+ *                   TASK_IS_NOT_ALIVE branch of parsec_insert_dtd_flush_task) instead of still pending
  *   The harness ends every case with F* ; ! (section "data:").
  *
  * observation line:
@@ -179,6 +183,8 @@ static int parse_case(const char *line, case_t *c) {
         item_t *it = &c->it[c->nitems];
         if (*s == '!') {
             s++; it->kind = '!'; if (++nwait > MAXS) return 0;
+        } else if (*s == '~') {
+            s++; it->kind = '~'; it->arg = c->ntasks;
         } else if (*s == 'F') {
             s++; it->kind = 'F';
             if (*s == '*') { it->arg = -1; s++; }
@@ -272,6 +278,15 @@ static const char *run_case(int *nsnap_out) {
         else if (it->kind == 'F') {
             if (it->arg < 0) parsec_dtd_data_flush_all(g_tp, g_A);
             else parsec_dtd_data_flush(g_tp, tile_of(it->arg));
+        } else if (it->kind == '~') {
+            struct timespec t0; clock_gettime(CLOCK_MONOTONIC, &t0);
+            for (;;) {
+                int pending = 0;
+                for (int k = 0; k < it->arg; k++) if (C.t[k].rank == my_rank && !*(volatile int32_t *)&runs[k]) pending = 1;
+                if (!pending || usec_since(&t0) > 400000) break;
+                usleep(200);
+            }
+            usleep(2000);
         } else {
             rc = parsec_taskpool_wait(g_tp);
             if (rc < 0) return "<taskpool_wait failed>";
